@@ -123,7 +123,11 @@ struct World {
          (void)ri; break; }
       case UNION: { auto* k = lex.make_union(parent); add(k->region(), p, k, c, &k->body); types.push_back(k); break; }
       case ENUM: { auto* k = lex.make_enum(parent, rng.chance(50) ? Enum::Kind::Scoped : Enum::Kind::Legacy); add(k->region(), p, k, c); enums.push_back({ k, {} }); break; }
-      case NAMESPACE: { auto* k = lex.make_namespace(parent); add(k->region(), p, k, c, &k->body); break; }
+      case NAMESPACE: { auto* k = lex.make_namespace(parent);
+         // names are given afterwards, as a front end does: none, the empty identifier (an unnamed namespace: the spelling the
+         // unit's own global namespace carries), an ordinary one
+         switch (rng.below(4)) { case 0: break; case 1: k->id = &lex.get_identifier(u8""); ctx().count("namespaces_named_by_the_empty_identifier"); break; default: k->id = &lex.get_identifier(u8"ns"); break; }
+         add(k->region(), p, k, c, &k->body); break; }
       case CLOSURE: { auto* k = lex.make_closure(parent); add(k->region(), p, k, c, &k->body); break; }
       case BLOCK: { auto* b = lex.make_block(parent); int ri = add(b->region(), p, b, c, &b->lexical_region); blocks.push_back(b); block_region.push_back(ri); break; }
       case HANDLER: {
@@ -382,7 +386,7 @@ static void body(Ctx& C)
    // one long list per worker (quadratic to build: a parameter or base list of 65 600 members costs 10-20 s)
    wide_levels(seeds.next());
    if (C.worker < 4 || C.thorough) long_list(seeds.next(), C.worker % 4);
-   for (auto k : { "long_lists", "wide_levels_checked", "long_list_members_checked:parameter", "long_list_members_checked:enumerator", "long_list_members_checked:base", "long_list_members_checked:lambda-parameter" }) C.need(k);
+   for (auto k : { "namespaces_named_by_the_empty_identifier", "long_lists", "wide_levels_checked", "long_list_members_checked:parameter", "long_list_members_checked:enumerator", "long_list_members_checked:base", "long_list_members_checked:lambda-parameter" }) C.need(k);
 }
 
 int main(int argc, char** argv) { return guarded_main(argc, argv, body); }
